@@ -156,6 +156,7 @@ SILENT = [
                        ("model/expr_bin_model.py", "ExprBinModel.build", {"lhs_n": "left", "rhs_n": "right", "is_signed": "both_signed"}),
                        ("model/rand_info_builder.py", "RandInfoBuilder.process_fieldref", {"ex_randset": "survivor"})]),
     ("debug-prints", None),         # a print() inserted at the top of every function
+    ("rename-all-locals", None),    # every local variable of every function renamed (parameters, globals, attributes untouched)
 ]
 
 
@@ -264,6 +265,16 @@ def apply_silent(root, kind, spec):
                     ast.fix_missing_locations(t)
                     src = ast.unparse(t)
                     open(p, "w").write(src)
+    elif kind == "rename-all-locals":
+        for dp, dn, fn in os.walk(base):
+            for f in fn:
+                if f.endswith(".py"):
+                    p = os.path.join(dp, f)
+                    t = ast.parse(open(p).read())
+                    _rename_all_locals(t)
+                    src = ast.unparse(t)
+                    compile(src, p, "exec")
+                    open(p, "w").write(src)
     elif kind == "rename-locals":
         for file, func, ren in spec:
             p = os.path.join(base, file)
@@ -274,6 +285,46 @@ def apply_silent(root, kind, spec):
                         n.id = ren[n.id]
             src = ast.unparse(t)
             open(p, "w").write(src)
+
+
+def _rename_all_locals(tree):
+    """rename the local variables of every outermost function (consistently through nested scopes)"""
+    def outer_funcs(node, inside=False):
+        for ch in ast.iter_child_nodes(node):
+            if isinstance(ch, (ast.FunctionDef, ast.AsyncFunctionDef)):
+                if not inside:
+                    yield ch
+                # do not descend: nested functions are handled with their outermost function
+            else:
+                yield from outer_funcs(ch, inside)
+    for f in outer_funcs(tree):
+        params, stores, declared = set(), set(), set()
+        for n in ast.walk(f):
+            if isinstance(n, ast.arguments):
+                for a in n.posonlyargs + n.args + n.kwonlyargs + ([n.vararg] if n.vararg else []) + ([n.kwarg] if n.kwarg else []):
+                    params.add(a.arg)
+            elif isinstance(n, (ast.Global, ast.Nonlocal)):
+                declared.update(n.names)
+            elif isinstance(n, ast.Name) and isinstance(n.ctx, ast.Store):
+                stores.add(n.id)
+            elif isinstance(n, ast.ExceptHandler) and n.name:
+                params.add(n.name)
+            elif isinstance(n, (ast.FunctionDef, ast.ClassDef)) and n is not f:
+                params.add(n.name)
+            elif isinstance(n, (ast.Import, ast.ImportFrom)):
+                for a in n.names:
+                    params.add((a.asname or a.name).split(".")[0])
+        # names bound in class bodies nested in the function become attributes: leave them alone
+        for n in ast.walk(f):
+            if isinstance(n, ast.ClassDef):
+                for st in n.body:
+                    for x in ast.walk(st):
+                        if isinstance(x, ast.Name) and isinstance(x.ctx, ast.Store) and not any(isinstance(p, ast.FunctionDef) for p in [st]):
+                            params.add(x.id)
+        ren = {v for v in stores if v not in params and v not in declared and not v.startswith("__")}
+        for n in ast.walk(f):
+            if isinstance(n, ast.Name) and n.id in ren:
+                n.id = n.id + "_r"
 
 
 def _check(root, props):
